@@ -102,6 +102,22 @@ def callcache_probe(tier, base_seed):
     return ev, vs
 
 
+def pedcache_probe(tier, base_seed):
+    """Both tiers (C09, C18): the COMPILED call-pedigree sampler, whose likelihood cache is created inside mcmc_sampler (no switch,
+    no likelihoods returned), against a cache-free twin re-compiled from the same source: same seed and start => identical trace."""
+    n = 40 if tier == "quick" else 400
+    doc, cmd = run_compiled_probe(["pedcache", base_seed % (2 ** 31), n])
+    ev = {"cases": doc["cases"], "cases_with_uninformative_heavy_reads": doc["ballast_cases"], "sampler_steps_compared": doc["steps_compared"],
+          "genotypes_compared": doc["sample_steps_compared"], "distinct_joint_states_in_the_traces": doc["distinct_states"], "mismatches": len(doc["mismatches"])}
+    vs = []
+    if doc["mismatches"]:
+        ms = doc["mismatches"]
+        vs.append({"class": "compiled_pedigree_trajectory_depends_on_cache",
+                   "message": "compiled call-pedigree sampler: the trace differs from that of its cache-free twin (same seed, same start) in %d of %d cases, e.g. %r" % (len(ms), doc["cases"], ms[0]),
+                   "detail": ms[:10], "rerun": cmd})
+    return ev, vs
+
+
 def post_batch(tier, base_seed, results, with_callcache=True):
     """Both tiers: compiled call sampler with its cache on (callcache_probe).
     Thorough tier: gibbs_options / mh_options are recomputed COMPILED (JIT on, separate process) on states the
